@@ -2,7 +2,7 @@
 # usage: seed_confirm.sh <Cxx> [suffix]   -- confirm a seeded change in a fresh scratch worktree and file it under /verif/seeded
 set -u
 ID=$1; SFX=${2:-}
-SRC=/tmp/wt
+SRC=${SRC:-/tmp/wt}
 W=/tmp/confirm/$ID$SFX
 rm -rf $W; mkdir -p /tmp/confirm
 git -C /repo worktree add -q --detach $W HEAD || exit 2
